@@ -175,6 +175,8 @@ def judge(ctx, rname, data, enum=False, as_view=False):
     want = ref(data)
     if as_view:
         # rotate through the bytes-like types a caller may hand over
+        # (signed-char views are NOT offered here: the der-level functions take byte strings that the
+        # public entry points have already normalised to unsigned bytes; C10/C12 offer them there)
         k = (len(data) + (data[-1] if data else 0)) % 3
         arg = memoryview(data) if k == 0 else (memoryview(bytearray(data)) if k == 1 else bytearray(data))
     else:
@@ -439,6 +441,30 @@ def run_unit(ctx, name, **kw):
         ctx.sample({"reader": rn, "data": bytes((tags[0], kw["lens"][-1], 0, 0)).hex(),
                     "note": "one of the length-4 slice"})
     elif name == "mutations":
+        # bodies of 2^24 bytes need the four-octet length form 84 01 00 00 00
+        big = bytes(1 << 24)
+        for kind, case in (("octets", {"kind": "octets"}), ("sequence", {"kind": "sequence"}),
+                           ("constructed", {"kind": "constructed", "tag": 1}), ("bitstring", {"kind": "bitstring", "unused": 0})):
+            ctx.ev()
+            try:
+                if kind == "octets":
+                    enc = D.encode_octet_string(big); dec = D.remove_octet_string(enc + b"\x05")
+                    ok = enc[:6] == b"\x04\x84\x01\x00\x00\x00" and len(dec[0]) == len(big) and bytes(dec[1]) == b"\x05"
+                elif kind == "sequence":
+                    enc = D.encode_sequence(big); dec = D.remove_sequence(enc + b"\x05")
+                    ok = enc[:6] == b"\x30\x84\x01\x00\x00\x00" and len(dec[0]) == len(big) and bytes(dec[1]) == b"\x05"
+                elif kind == "constructed":
+                    enc = D.encode_constructed(1, big); dec = D.remove_constructed(enc + b"\x05")
+                    ok = enc[:6] == b"\xa1\x84\x01\x00\x00\x00" and dec[0] == 1 and len(dec[1]) == len(big) and bytes(dec[2]) == b"\x05"
+                else:
+                    enc = D.encode_bitstring(big[:-1], 0); dec = D.remove_bitstring(enc + b"\x05", 0)
+                    ok = enc[:6] == b"\x03\x84\x01\x00\x00\x00" and len(dec[0]) == len(big) - 1 and bytes(dec[1]) == b"\x05"
+                if not ok:
+                    ctx.fail("roundtrip/%s/16MiB-body" % kind, {"kind": "big-body", "reader": kind}, "decode differs")
+            except Exception as e:
+                ctx.fail("roundtrip/%s/16MiB-body/%s" % (kind, exc_sig(e)), {"kind": "big-body", "reader": kind}, repr(e))
+            ctx.nontrivial(("big-body", kind))
+        del big
         seen = set()
         for rn, seed in long_seeds():
             judge(ctx, rn, seed)
@@ -481,7 +507,9 @@ def run_unit(ctx, name, **kw):
 
 
 def replay(ctx, case):
-    if "reader" in case:
+    if case.get("kind") == "big-body":
+        run_unit(ctx, "mutations")
+    elif "reader" in case:
         judge(ctx, case["reader"], bytes.fromhex(case["data"]), as_view=case.get("view", False))
     else:
         roundtrip_case(ctx, case)
